@@ -17,17 +17,17 @@ def consts(site, wf, sup):
     return dopts, root, holder
 
 
-def run(prop, tier, seed):
-    rep = Report("C12", tier, seed)
-    wd = tlc.scratch()
-    maxlen = 4 if tier == "quick" else 5
-    combos = [(s, wf, sup) for s in ("config", "field", "codec") for wf in (True, False) for sup in (False, True)
-              if not (s == "config" and sup)] + [("pair", True, False)]
+def histories(rep, wd, combos, maxlen, faults=False, clause=None, label_extra=""):
+    """TLC enumerates every history of MC_C12 for the given sites; each is replayed against the real library"""
     for site, wf, sup in combos:
         ml = maxlen - 1 if site == "pair" else maxlen          # the pair site has 16 inputs x 4 definitions: one step shorter
-        cfg = core.cfg_text("MC_C12.cfg", Site=f'"{site}"', WithField=wf, Supertypes=sup, MaxLen=ml)
-        r = tlc.run_tlc("MC_C12", workdir=wd, workers=16, timeout=3000, cfg_text=cfg)
-        rep.add_tlc(r, f"MC_C12 site={site} field={wf} supertypes={sup} len<={ml}: VariantChoice RegistrySound NoInheritedTag")
+        cfg = core.cfg_text("MC_C12.cfg", Site=f'"{site}"', WithField=wf, Supertypes=sup, MaxLen=ml, Faults=faults)
+        label = f"MC_C12 site={site} field={wf} supertypes={sup} len<={ml}{label_extra}: VariantChoice RegistrySound NoInheritedTag"
+        if faults:
+            r = core.run_mc_with_table("MC_C12", wd, [(["int"], [["str", "bad"]])], cfg=cfg, rep=rep, label=label, timeout=3000)
+        else:
+            r = tlc.run_tlc("MC_C12", workdir=wd, workers=16, timeout=3000, cfg_text=cfg)
+            rep.add_tlc(r, label)
         if r.violated:
             raise tlc.MachineryError(f"model property violated on the reference spec: {r.violated}")
         behs = [p[1] for p in r.printed if p[0] == "beh"]
@@ -39,9 +39,33 @@ def run(prop, tier, seed):
             if any(e[0] == "Define" for e in b) and any(e[0] == "Deserialize" for e in b):
                 rep.nontrivial(jkey([site, wf, sup, b])[-300:] + str(hash(jkey(b))))
         for m in agg["mism"]:
-            rep.violation(m["clause"], {**m, "T": root, "channel": "R", "replay_module": "harness.checks.c12"})
+            c = m["clause"]
+            if clause is not None:
+                # C05 reads the same histories for its own question: WHICH documented error surfaces, naming what
+                exp, act = m["expected"], m["actual"]
+                if exp[0] == "unknown":
+                    rep.unmodelled += 1
+                    continue
+                if exp[0] == "ok":
+                    c = "decode-rejects" if act[0] != "ok" else "decode"
+                elif act[0] == "ok":
+                    c = "decode-accepts"
+                else:
+                    c = "error-kind" if act[1][:1] != exp[1][:1] else "error-detail"
+            rep.violation(c, {**m, "T": root, "channel": "R", "replay_module": "harness.checks.c12"})
         if behs:
             rep.sample({"site": site, "with_field": wf, "include_supertypes": sup, "behaviour": behs[len(behs) // 2]})
+
+
+def run(prop, tier, seed):
+    rep = Report("C12", tier, seed)
+    wd = tlc.scratch()
+    maxlen = 4 if tier == "quick" else 5
+    combos = [(s, wf, sup) for s in ("config", "field", "codec") for wf in (True, False) for sup in (False, True)
+              if not (s == "config" and sup)] + [("pair", True, False)]
+    histories(rep, wd, combos, maxlen)
+    if tier != "quick":
+        histories(rep, wd, [(s, True, False) for s in ("config", "field", "codec")], maxlen, faults=True, label_extra=" fault alphabet")
     # sensitivity of the model property: the deviant walk (direct subclasses only) must be refuted by TLC
     cfg = core.cfg_text("MC_C12.cfg", Site='"config"', WithField=True, Supertypes=False, MaxLen=4, Walk='"direct"')
     try:
